@@ -109,6 +109,7 @@ def make_pyvis_net(
         network_kwargs = {"cdn_resources": "local"}
     net = network.Network(**network_kwargs)
     verts = list(uni.vertices)
+    marked = []
     try:
         for i, vert in enumerate(verts):
             if rvfunc:
@@ -120,6 +121,7 @@ def make_pyvis_net(
             # fast lookup of this vertex's index later on
             # pylint: disable-next=protected-access
             vert.__make_pyvis_net_i = i
+            marked.append(vert)
 
         for i, vert in enumerate(verts):
             for edge in vert.links:
@@ -178,10 +180,16 @@ def make_pyvis_net(
 
     finally:
         # make sure we remove our temporary attribute, also when a render
-        # function raised; vertices the first loop did not reach do not have it
-        for vert in verts:
-            if "__make_pyvis_net_i" in vars(vert):
+        # function raised; vertices the first loop did not reach do not have
+        # it.  it goes the way it came -- through the vertex's own attribute
+        # protocol: a class may well file its attributes somewhere other than
+        # the instance dictionary
+        for vert in marked:
+            try:
+                # pylint: disable-next=protected-access
                 del vert.__make_pyvis_net_i
+            except AttributeError:
+                pass
 
     return net
 
